@@ -301,6 +301,11 @@ struct coll_policy
             }
             if (r.kind == 0 && !before.empty)
                 t.fail("M-nogrow", "grew-with-free-node", "single node request reserved memory although its free list still held a node");
+            // an array that needs ONE node of its bucket is a single node request as well (pools without array support always reserve)
+            if (r.kind == 1 && taken == 1 && !before.empty && !std::is_same<PoolType, fm::small_node_pool>::value)
+                t.fail("M-nogrow", "grew-with-free-node",
+                       fmt("array request of %u x %u bytes needs one node of %zu bytes and reserved memory although its free list still held a node", r.count, r.size,
+                           before.list_ns));
         }
         if (r.size > before.max_node)
             t.fail("M-maxima", "above-max-node-size", fmt("request of node size %u succeeded, max_node_size() was %zu", r.size, before.max_node));
